@@ -95,7 +95,7 @@ def check(run):
                 run.add_violation('oracle:c12/concurrent', v, ['family c12', 'case ' + c, 'impl ' + o[:1500], 'verdict ' + v])
             if not bad:
                 run.discharged += 1
-            run.stream('c12/concurrent-writers', len(cc), len(cc), False, '1-8 concurrent writers with sequence-numbered payloads through one handle; per appender: every payload exactly once, per-writer order')
+            run.stream('c12/concurrent-writers', len(cc), len(cc), False, '1-8 concurrent writers with sequence-numbered payloads through one handle (byte slices from a recycled buffer and, for every other writer, strings through io.WriteString); per appender: every payload exactly once, per-writer order')
         # full buffer: the overflow paths (Block: blocking send, DiscardOldest: evict and retry) must also snapshot the bytes
         fc = []
         for _ in range(10 if run.tier == 'quick' else 200):
